@@ -221,6 +221,16 @@ def compare_global_reads(prog, coq_scopes, survey):
     for m, entry in survey["modules"].items():
         for f in entry["functions"]:
             theirs.setdefault((m, f["qualname"]), set()).update(f["globals"])
+    # CPython >= 3.12 inlines list/dict/set comprehensions into the enclosing code object (PEP 709):
+    # such a scope has no code object of its own, and its global reads are the enclosing scope's
+    for key in sorted(mine):
+        last = key[1].split(".")[-1]
+        if last in ("<listcomp>", "<dictcomp>", "<setcomp>") and key not in theirs:
+            parts = key[1].split(".")[:-1]
+            if parts and parts[-1] == "<locals>":
+                parts = parts[:-1]
+            parent = (key[0], ".".join(parts) if parts else "<module>")
+            mine.setdefault(parent, set()).update(mine.pop(key))
     mism, n = [], 0
     for key in sorted(set(mine) | set(theirs)):
         a, b = mine.get(key), theirs.get(key)
